@@ -22,7 +22,76 @@ RT_TB = [
     "enum decoders, enum numbers and NYCT tables are regenerated from the source (Gen.Enums, Gen.NyctTables)",
 ]
 
+ST_TB = [
+    "modelled, differentially validated: ParseStatic and its ten row loops as Gtfs.Static.* (hand-written Lean model from the list of archive members; compared on every generated feed, all fields and references, through the public API)",
+    "modelled, differentially validated: encoding/csv as csv.New configures it plus the UTF-8 BOM removal, as the byte-level fold Gtfs.Csv (UTF-16 byte-order marks and invalid UTF-8 after a BOM are outside the model)",
+    "model boundary: archive/zip and compress/flate (trusted; the harness wraps the members into a zip, store or deflate)",
+    "parameters of the model (library calls, computed by the harness for every cell of the case): parseFloat64 = TrimSpace + strconv.ParseFloat (the harness's replica is the reading 'decimal numbers exactly'; strconv trusted), time.LoadLocation (zone database trusted)",
+    "a date is its civil day number (Gtfs.Civil); that it is the start of that day in the reported zone is observed on the implementation by the canonicaliser",
+    "references are indices; the Go canonicaliser computes them by pointer identity and reports a pointer that is not an element of the result's own collection",
+    "column names/required flags, ReadOr defaults, the file table, enum decoders and constants are regenerated from the source (Gen.Columns, Gen.FileTable, Gen.Enums)",
+    "Go maps as association lists (last insertion wins); sort.Slice as List.mergeSort (claimed only for distinct keys); strconv.Atoi/ParseInt; int overflow inside parseGtfsTimeToDuration is not modelled",
+]
+
 PROPS = {
+    "C01": {
+        "module": "GtfsVerif.Props.C01",
+        "trusted_base": ST_TB,
+        "partial": ["the ten-file composition 'a well-formed feed yields exactly the expected entities' is not one theorem: proved are the byte-level presentation theorem (quoting, LF/CRLF, final newline, BOM), lookup by header name, member lookup by name, the per-row transcription theorems, one entity per accepted row in order, scalar and enum decoding; the composition is carried by the correspondence, whose oracle compares every field with the generated cells and two further presentations",
+                    "a transfers.txt row with from_stop_id = to_stop_id yields no Transfer (finding D20, pinned by TestParse/same_stop_transfer): well-formed feeds of the generator keep from != to"],
+        "assumptions": ["values free of CR; unquoted fields free of comma, quote, LF (as the statement's quantifier)"],
+    },
+    "C03": {
+        "module": "GtfsVerif.Props.C03",
+        "trusted_base": ST_TB,
+        "partial": ["the model's cycle check walks with fuel (number of stops + 1) where Go's loop has none; on the forest invariant they coincide, which is validated differentially (feeds with up to 2100 stops), not proved"],
+        "assumptions": [],
+    },
+    "C05": {
+        "module": "GtfsVerif.Props.C05",
+        "trusted_base": ST_TB + RT_TB + JOURNAL_TB,
+        "runs": [{"cmd": "run", "prop": "C05"}, {"cmd": "run", "prop": "CSV"}],
+        "partial": ["panics and hangs inside archive/zip, encoding/csv, protobuf-go, text/template, regexp cannot be exhibited by a theorem: they are exercised by the malformed-input streams (recover + 20 s watchdog per case)",
+                    "ParseRealtime(_, nil) (a nil options pointer) panics; a nil pointer is not a configuration of the bundled extensions and is outside the quantifier"],
+        "assumptions": [],
+    },
+    "C06": {
+        "module": "GtfsVerif.Props.C06",
+        "trusted_base": ST_TB + RT_TB,
+        "partial": ["determinism across processes and repeated calls is a runtime fact observed by the oracle (6 repetitions, interleaved other inputs, a second process); the Lean part is that every range-over-map site of the regenerated inventory is one whose order cannot reach the output, and that no state is retained"],
+        "assumptions": [],
+    },
+    "C08": {
+        "module": "GtfsVerif.Props.C08",
+        "trusted_base": ST_TB,
+        "partial": ["row-permutation invariance is proved for stop_times.txt (the harder case: interleaved trips); shapes.txt is covered by sortedness theorems and the correspondence"],
+        "assumptions": ["distinct stop_sequence per trip and shape_pt_sequence per shape (the statement's quantifier): Go's sort is unstable"],
+    },
+    "C09": {
+        "module": "GtfsVerif.Props.C09",
+        "trusted_base": ST_TB,
+        "partial": [],
+        "assumptions": [],
+    },
+    "C10": {
+        "module": "GtfsVerif.Props.C10",
+        "trusted_base": ST_TB,
+        "partial": [],
+        "assumptions": [],
+    },
+    "C11": {
+        "module": "GtfsVerif.Props.C11",
+        "trusted_base": ST_TB,
+        "partial": ["loading the zone is trusted (the harness tells the model which zone names resolve)"],
+        "assumptions": [],
+    },
+    "C18": {
+        "module": "GtfsVerif.Props.C18",
+        "trusted_base": ST_TB + RT_TB + ["the Go race detector and memory model (runtime part): harness built with -race"],
+        "runs": [{"cmd": "race", "prop": "C18", "binary": "harness-race"}],
+        "partial": ["the absence of data races is a runtime fact: observed by the race detector over 16 goroutines sharing input buffers and one options/extension value per configuration, not proved; Lean proves that read-only processes cannot conflict in any interleaving and that the regenerated inventory of shared writes is within the allowed set"],
+        "assumptions": [],
+    },
     "C02": {
         "module": "GtfsVerif.Props.C02",
         "trusted_base": RT_TB,
@@ -99,6 +168,51 @@ PROPS = {
 }
 
 MANIFEST_TEXT = {
+    "C01": {
+        "text": "Theorems: the CSV reader returns exactly the written records for every quoting / LF-CRLF / final-newline choice (proved over the byte-level reader model), BOM removal, lookup by header name and member lookup by name, per-row transcription of routes / stops / trips, one entity per accepted row in order, H:MM:SS (past 24:00:00) and YYYYMMDD decoding, enums by digit over the regenerated decoders; columns, required flags and the file table of the source are tied to the model's. The correspondence parses each well-formed feed under three presentations and compares every field with the model and with the generated cells.",
+        "note": "Trusted: Lean kernel, harness, zip/flate, strconv, tz database; encoding/csv is modelled and validated (also by a dedicated random-bytes stream). The ten-file composition is partial (see evidence).",
+        "technique": "Lean 4 proof (CSV presentation round trip, per-row transcription) over regenerated schema facts + generator-truth correspondence",
+    },
+    "C03": {
+        "text": "Theorems for any member bytes: every reference index is in range of its target collection and the target carries the id named in the referring row (route->agency, transfer->stops, trip->route/service/shape, stop time->stop/trip); the parent links produced by the linking pass form a forest for any ids and parent_station values (invariant over the pass: chains end, unprocessed stops are roots; adding a link whose target's chain avoids the stop keeps it). The canonicaliser locates every pointer by identity in the result's own collections; the oracle walks every chain under a step budget on adversarial feeds.",
+        "note": "Trusted: Lean kernel, harness. Pointer identity is observed, not proved.",
+        "technique": "Lean 4 proof (index specs, forest invariant by induction over the linking pass) + pointer-identity correspondence",
+    },
+    "C05": {
+        "text": "Lean: the models of all entry points are total functions (termination checked by Lean); the regenerated inventory of panic-capable sites (index, slice, dereference, type assertion, panic) and condition-less loops is covered site by site by a discharged table, Root terminates by the forest theorem. Runtime: malformed-input streams (semantic garbage in valid CSV, random CSV bytes, random archive bytes, mutated protobuf under all 25 extension configurations, journals and exports, every accessor) under recover and a watchdog; the model predicts the outcome class of static cases, and the CSV reader model is validated on random bytes.",
+        "note": "Partial by nature: library internals are exercised, not proved.",
+        "technique": "Lean 4 totality + inventory-discharge theorem over regenerated panic sites + malformed-input exploration",
+    },
+    "C06": {
+        "text": "Lean: every range-over-map site of the regenerated inventory is covered by a sort on distinct keys or by independent iterations; no package-level state, options copied, stateful extension instantiated per message. Runtime oracle: same bytes parsed 6 times, again after unrelated inputs with one options/extension object, and in a second process; content and order compared, input buffer unchanged; cases are built so that any map-ordered output has 8 entries.",
+        "note": "Determinism across runs is observed by repetition (miss probability 8^-6 per case for an 8-entry map), not proved.",
+        "technique": "Lean 4 inventory theorem over regenerated map-range sites + repeated/cross-process parse oracle",
+    },
+    "C08": {
+        "text": "Theorems: stop times ascending per trip, shapes ordered by id, shape points ascending (mergeSort sortedness), routes/trips keep row order (filterMap sublist), frequencies appended in row order, and row-permutation invariance of stop_times.txt for distinct sequences (uniqueness of the sorted permutation). The correspondence parses each feed with the rows of stop_times.txt and shapes.txt reversed, riffled and shuffled.",
+        "note": "Trusted: Lean kernel, harness; sort.Slice modelled as a sort (unstable: distinct keys assumed as in the statement).",
+        "technique": "Lean 4 proof (sortedness, sorted-permutation uniqueness) + row-shuffle correspondence",
+    },
+    "C09": {
+        "text": "Theorems: each listed cause makes the row function yield nothing; a rejected row inserted at any position of any of the ten files leaves that file's contribution unchanged (filterMap / fold insertion lemmas; for stops including the parent table, for stop times the per-trip lists); every agency warning names the file, the 1-based row number and exactly that row's cells and the header (invariant over the row fold). The correspondence inserts 1-5 invalid rows of every cause into random files and compares with the clean parse.",
+        "note": "Trusted: Lean kernel, harness.",
+        "technique": "Lean 4 proof (rejected rows are filterMap/fold no-ops, warning invariant) + bad-row insertion correspondence",
+    },
+    "C10": {
+        "text": "Theorems over the regenerated ReadOr defaults and enum default branches: blank = absent for every default-bearing read, the defaults are the documented GTFS ones, which decoder reads which column, one-sided arrival/departure fill-in, and 'inheritance on = inheritance pass applied to inheritance off' with the pass touching nothing but wheelchair boarding of unspecified stops under a station. The correspondence spells 1-4 columns three ways (blank, absent, mixed) and toggles the option.",
+        "note": "Trusted: Lean kernel, harness, extractor of the ReadOr call sites.",
+        "technique": "Lean 4 proof (decide over regenerated defaults, fold-scope lemma) + three-spellings correspondence",
+    },
+    "C11": {
+        "text": "Theorems: the service table keeps distinct keys, each entry under its own id, and start <= every added/removed date <= end after any sequence of calendar and exception rows (invariant by induction over both folds); one Service per id ordered by id; a calendar row sets flags and range, exception rows append in file order and extend the range, unknown types change nothing; zone rule. The oracle recomputes the expected services from the generated rows.",
+        "note": "Trusted: Lean kernel, harness, tz database.",
+        "technique": "Lean 4 proof (table invariant by induction over rows) + generator-truth correspondence",
+    },
+    "C18": {
+        "text": "Runtime: a -race build runs 16 goroutines over shared archives/messages with one shared options and extension value per configuration and compares every result with the call made alone; results are hashed and walked from other goroutines. Lean: read-only processes never conflict in any interleaving; the regenerated inventory shows no package-level writes, only allowed writes through parameters, options copied, per-message extension instances.",
+        "note": "Partial by nature: the absence of races is observed by the race detector, not proved.",
+        "technique": "Lean 4 interleaving lemma + inventory theorem over regenerated shared writes + Go race detector run",
+    },
     "C02": {
         "text": "Theorems over the realtime model for all decoded messages: timestamps are the same instant (identity below 2^63, two's complement above), delay/time/uncertainty and every optional vehicle field carried over with absent staying absent, HH:MM:SS to seconds for all two-digit triples, YYYYMMDD to the civil day (normalisation is the identity on valid dates), direction and enum decoders over the regenerated tables, one Alert per non-skipped alert entity in feed order (closed form of the merge loop), regex texts pinned. The model is compared field by field with ParseRealtime on generated conflict-free messages in 8 zones and the oracle compares the result with the wire values.",
         "note": "Trusted: Lean kernel, protobuf-go, time package (zone presentation observed, not proved), harness. 'One Trip per distinct descriptor' is split between C07's theorems and the oracle (see evidence.partial).",
